@@ -388,7 +388,7 @@ Plan generate(Rng &rng, const Opts &opts, uint64_t)
         } else if (r < 88) {
             p.steps.push_back(mk(0, "ASSIGN_ITEM", {long(rng.below(NKINDS)), long(rng.below(16)), long(rng.below(3))}));
         } else if (r < 90) {
-            p.steps.push_back(mk(0, "CLEAR", {long(rng.below(2))}));
+            p.steps.push_back(mk(0, "CLEAR", {long(rng.below(2)), long(rng.below(3) == 0)}));
         } else if (r < 95) {
             p.steps.push_back(mk(0, "PRINT_AUTO"));
         } else if (r < 98) {
@@ -1110,6 +1110,7 @@ void execute(const Plan &plan, Ctx &ctx)
             }
             ctx.count("annot_assign_item");
         } else if (s.op == "CLEAR") {
+            auto before = collect(w.model);
             if (s.arg(0) % 2 != 0) {
                 w.annotator->clearAllIds(w.model);
             } else {
@@ -1124,6 +1125,26 @@ void execute(const Plan &plan, Ctx &ctx)
             w.editsSinceRefresh = 0;
             w.idEditsSinceRefresh = 0;
             ctx.count("annot_clear");
+            if (s.arg(1) != 0) {
+                // the editor's undo: every identifier is put back exactly where it was, through the entities, before the
+                // annotator is asked anything else (the model then looks exactly as it did when the annotator last indexed it)
+                auto now = collect(w.model);
+                size_t restored = 0;
+                if (now.size() == before.size()) {
+                    for (size_t k = 0; k < now.size(); ++k) {
+                        if (now[k].kind == before[k].kind && now[k].id != before[k].id) {
+                            setItemId(now[k], before[k].id);
+                            ++restored;
+                        }
+                    }
+                }
+                if (restored != 0) {
+                    ++w.editsSinceRefresh;
+                    ++w.idEditsSinceRefresh;
+                    ctx.count("fault_editor_undid_clearAllIds_behind_annotator");
+                    ctx.ev("E_UNDO restored=" + str(restored));
+                }
+            }
         } else if (s.op == "PRINT_AUTO") {
             auto items = collect(w.model);
             auto present = allIds(items);
